@@ -3,48 +3,128 @@
 From Clikit Require Import Base.Prelude Base.Res Model.Conv Model.Format Model.Parser Model.Resolver Model.Run
      Model.Tokenizer Model.Switches.
 
-(* ---- leniency overrides: Config._lenient_args_parsing of each command (None = default, here: strict unless configured) ---- *)
+(* ---- leniency overrides: Config._lenient_args_parsing of each command (None = default, here: strict unless configured) ----
+   The attribute lives on the CommandConfig object of ONE Command object.  A command object is identified here the way
+   the code reaches it: by its POSITION in the built tree (index among the siblings, level by level) - not by its path
+   of names: Command.add_sub_command keeps every sub-command it is given, CommandCollection.add files the later one
+   under a name already present (_commands[name] = command), so two siblings may share a name and only the last one is
+   ever resolved; the earlier one still exists and keeps its own configuration. *)
 Definition path := list str.
-Fixpoint path_eqb (a b : path) : bool :=
+Definition pos := list nat.
+Fixpoint pos_eqb (a b : pos) : bool :=
   match a, b with
   | [], [] => true
-  | x :: a', y :: b' => str_eqb x y && path_eqb a' b'
+  | x :: a', y :: b' => Nat.eqb x y && pos_eqb a' b'
   | _, _ => false
   end.
-Definition overrides := list (path * bool).
-Fixpoint lookup (st : overrides) (p : path) : option bool :=
-  match st with [] => None | (q, b) :: r => if path_eqb p q then Some b else lookup r p end.
+Definition overrides := list (pos * bool).
+Fixpoint lookup (st : overrides) (p : pos) : option bool :=
+  match st with [] => None | (q, b) :: r => if pos_eqb p q then Some b else lookup r p end.
 
-Fixpoint apply_cmd (st : overrides) (pre : path) (c : bcmd) : bcmd :=
+(* c is the command at position p *)
+Fixpoint apply_cmd (st : overrides) (p : pos) (c : bcmd) : bcmd :=
   match c with
   | BCmd n al d an len f subs =>
-    let p := pre ++ [n] in
     BCmd n al d an (match lookup st p with Some b => b | None => len end) f
-         ((fix go (l : list bcmd) : list bcmd := match l with [] => [] | s :: r => apply_cmd st p s :: go r end) subs)
+         ((fix go (i : nat) (l : list bcmd) : list bcmd :=
+             match l with [] => [] | s :: r => apply_cmd st (p ++ [i]) s :: go (S i) r end) 0 subs)
   end.
+(* the siblings l, the first of which has index i, below position p (the top level: p = []) *)
+Fixpoint apply_forest (st : overrides) (p : pos) (i : nat) (l : list bcmd) : list bcmd :=
+  match l with [] => [] | s :: r => apply_cmd st (p ++ [i]) s :: apply_forest st p (S i) r end.
 Definition apply_state (st : overrides) (a : application) : application :=
-  {| ap_global := ap_global a; ap_cmds := map (apply_cmd st []) (ap_cmds a) |}.
+  {| ap_global := ap_global a; ap_cmds := apply_forest st [] 0 (ap_cmds a) |}.
 
-(* effective leniency of the command at path p *)
-Fixpoint find_path (cs : list bcmd) (p : path) : option bcmd :=
+(* the command at a position; its effective leniency *)
+Fixpoint cmd_at (cs : list bcmd) (p : pos) : option bcmd :=
   match p with
   | [] => None
-  | n :: r =>
-    match find (fun c => str_eqb (b_name c) n) cs with
+  | i :: r =>
+    match nth_error cs i with
     | None => None
-    | Some c => match r with [] => Some c | _ => find_path (b_subs c) r end
+    | Some c => match r with [] => Some c | _ => cmd_at (b_subs c) r end
     end
   end.
-Definition eff (st : overrides) (a : application) (p : path) : option bool :=
-  option_map b_lenient (find_path (ap_cmds (apply_state st a)) p).
+Definition eff (st : overrides) (a : application) (p : pos) : option bool :=
+  option_map b_lenient (cmd_at (ap_cmds (apply_state st a)) p).
 
-(* one run on the application in state st: HelpResolver.create_resolved_command enables leniency on the help
-   target and afterwards restores the previous effective value (try/finally) *)
+(* ---- which command object the help resolver touches ----
+   A collection built from the siblings that satisfy `keep` (named: not anonymous; default: is_default) holds under the
+   name m the LAST such sibling called m.  Its index among ALL the siblings: *)
+Fixpoint last_named (keep : bcmd -> bool) (m : str) (l : list bcmd) : option nat :=
+  match l with
+  | [] => None
+  | c :: r =>
+    match last_named keep m r with
+    | Some i => Some (S i)
+    | None => if keep c && str_eqb (b_name c) m then Some 0 else None
+    end
+  end.
+Definition is_named (b : bcmd) : bool := negb (b_anonymous b).
+(* the position of the command that walk reaches along the name path q (walk records b_name of what it resolved, so an
+   alias typed on the line is already replaced by the name) *)
+Fixpoint locate_named (cs : list bcmd) (q : path) : option pos :=
+  match q with
+  | [] => Some []
+  | n :: r =>
+    match last_named is_named n cs with
+    | None => None
+    | Some i =>
+      match nth_error cs i with
+      | None => None
+      | Some c => option_map (cons i) (locate_named (b_subs c) r)
+      end
+    end
+  end.
+
+(* HelpResolver.resolve up to the call of create_resolved_command: result.command, its name path and its position.
+   Same steps as help_target (Model/Switches.v), which goes on with the lenient parse and keeps the path only
+   (Proofs/AppStateRestoreLemmas.v: help_target_is_pick; the position is always found and holds that very command:
+   help_pick_position). *)
+Definition help_pick (a : application) (toks : list str) : res (bcmd * path * option pos) :=
+  let toks := match toks with t :: r => if str_eqb t S_help then r else toks | [] => [] end in
+  let names := leading toks in
+  do w <- walk (named_of (ap_cmds a)) None names;
+  match w with
+  | Some (b, pth) =>
+    do d <- pick_default (defaults_of (b_subs b)) toks None;
+    match d with
+    | Some (dc, _) =>
+      Ok (dc, pth ++ [b_name dc],
+          match locate_named (ap_cmds a) pth, last_named b_default (b_name dc) (b_subs b) with
+          | Some p, Some i => Some (p ++ [i])
+          | _, _ => None
+          end)
+    | None => Ok (b, pth, locate_named (ap_cmds a) pth)
+    end
+  | None =>
+    match names with
+    | _ :: _ => Err CannotResolve
+    | [] =>
+      do d <- pick_default (defaults_of (ap_cmds a)) toks None;
+      match d with
+      | Some (dc, _) => Ok (dc, [b_name dc], option_map (fun i => [i]) (last_named b_default (b_name dc) (ap_cmds a)))
+      | None => Err CannotResolve
+      end
+    end
+  end.
+Definition help_target_pos (a : application) (toks : list str) : option pos :=
+  match help_pick a toks with Ok (_, _, p) => p | Err _ => None end.
+
+(* one run on the application in state st: HelpResolver.create_resolved_command enables leniency on the configuration
+   of the command it was handed and afterwards, in its finally: (so also when the lenient parse raised, AHelpFail),
+   puts back the value that was effective before.  Either way the attribute of THAT command is no longer None. *)
 Definition run_on (st : overrides) (a : application) (toks : list str) : overrides * summary :=
   let a' := apply_state st a in
   let sm := run_summary false a' toks in
+  let touched :=
+    match help_target_pos a' toks with
+    | Some p => match eff st a p with Some b => (p, b) :: st | None => st end
+    | None => st
+    end in
   (match sm_action sm with
-   | AHelpCmd p => match eff st a p with Some b => (p, b) :: st | None => st end
+   | AHelpCmd _ => touched
+   | AHelpFail _ => touched
    | _ => st
    end, sm).
 Fixpoint runs_on (st : overrides) (a : application) (lines : list (list str)) : list summary :=
